@@ -220,6 +220,17 @@ def run(chk):
             chk.ok("C06.closeonerror", canc[0], "a cancelled body write closes the connection")
         else:
             chk.violation("C06.closeonerror", aw[0], K.short(aw[0]), "except asyncio.CancelledError: conn.close(); raise", "a request whose body was only partly sent leaves its connection reusable")
+        # ... and so does a cancellation at any earlier await of the writer task (waiting for `100 Continue`, draining the headers): the
+        # headers announce a body, nothing of it was sent, the connection must not go back to the pool
+        for a in prog.awaits_in(wb.node):
+            if a is aw[0] or any(isinstance(t, ast.Try) and prog.in_body_of(a, t, "orelse") for t in prog.enclosing(a, (ast.Try,))):
+                continue  # the body itself (checked above) / after the body was written completely
+            hs2 = [h for _t, h in K.enclosing_try_handlers(a) if {"asyncio.CancelledError", "BaseException"} & set(PC.handler_types(h)) or h.type is None]
+            if hs2 and any(M.contains(h, "conn.close()") for h in hs2):
+                chk.ok("C06.closeonerror", a, f"_write_bytes: a cancellation at `{K.short(a, 40)}` closes the connection")
+            else:
+                chk.violation("C06.closeonerror", a, K.short(a, 60), "except asyncio.CancelledError: conn.close(); raise",
+                              "the writer task can be cancelled here (the peer answered with a final status instead of `100 Continue`, so the response finished first) without closing the connection: it returns to the pool with a declared body of which nothing was sent, and the next request written on it is read by the server as that body")
         for h in hs:
             t = PC.handler_types(h)
             if t in (["OSError"], ["Exception"]):
